@@ -30,10 +30,11 @@ class Phase:
     """Fault rates on a directed link (or '*') during [t0, t1)."""
 
     def __init__(self, t0, t1, src="*", dst="*", loss=0.0, dup=0.0, delay=0.0, delay_p=0.0,
-                 flip=0.0, trunc=0.0, dup_delay=0.0, cut=False):
+                 flip=0.0, trunc=0.0, dup_delay=0.0, cut=False, hold=False):
         self.t0, self.t1, self.src, self.dst = t0, t1, src, dst
         self.loss, self.dup, self.delay, self.delay_p = loss, dup, delay, delay_p
         self.flip, self.trunc, self.dup_delay, self.cut = flip, trunc, dup_delay, cut
+        self.hold = hold            # nothing is lost: everything sent during the phase is released, in order, when it ends
 
     def matches(self, now, src, dst):
         return (self.t0 <= now < self.t1 and self.src in ("*", src) and self.dst in ("*", dst))
@@ -88,6 +89,10 @@ class Decider:
             if ph.cut:
                 f = []
                 self._count("partition_drop")
+                break
+            if ph.hold:
+                f = [(base + (ph.t1 - now), None)]
+                self._count("held_then_released_in_a_burst")
                 break
             u = khash(self.seed, "fate", link, ordinal, ph.t0)
             if u[0] < ph.loss:
